@@ -323,6 +323,17 @@ def part_b(h):
                 h.check(isinstance(res[1], str) and res[1] == str(v) and rx.match(str(v)) is not None, f"c20:restricted-str:{name}:nonstr:{v!r}",
                         f"non-string accepted as {res[1]!r}", {"type": name, "value": repr(v)})
     h.note(f"B: accepted {acc}, rejected {rej}")
+    # two types that differ only in the flags of their pattern are two types: asking for the second must not hand out the first
+    first = outcome(restricted_string_type, "FlagA", "^abc$")
+    for second_name in ("FlagA", "FlagB"):
+        second = outcome(restricted_string_type, second_name, re.compile("^abc$", re.I))
+        if second[0] == "ok":
+            got = outcome(second[1], "ABC")
+            h.check(got[0] == "ok", f"c20:restricted-str:flags-ignored:second-type-named-{'like-the-first' if second_name == 'FlagA' else 'differently'}",
+                    f"restricted_string_type({second_name!r}, re.compile('^abc$', re.I)) after ('FlagA', '^abc$') rejects 'ABC', which its pattern matches: {got!r} (same class as the first: {first[0] == 'ok' and second[1] is first[1]})",
+                    {"first": "restricted_string_type('FlagA', '^abc$')", "second": f"restricted_string_type({second_name!r}, re.compile('^abc$', re.I))", "value": "ABC"})
+        else:
+            h.check(True, "", "", None)  # refusing the second declaration (a name clash) is an honest answer
 
 
 # --------------------------------------------------------------------------------------------------------------------
